@@ -68,7 +68,8 @@ FormatOf(e) ==
                 \* a configured unit prints with 2 digits, rounding and removal; a user-defined one with the settings it was registered with
                 [] e.kind = "unit"  -> IF "uf" \in DOMAIN e THEN [d |-> e.uf.d, remove |-> e.uf.remove, round |-> e.uf.round]
                                        ELSE [d |-> e.digits, remove |-> TRUE, round |-> TRUE]
-  IN  [d |-> base.d, remove |-> base.remove, round |-> base.round, dec |-> Sep(calc.dec), tho |-> Sep(calc.tho)]
+      \* a separator of several characters is handed over character by character (TLC cannot take a string apart)
+  IN  [d |-> base.d, remove |-> base.remove, round |-> base.round, dec |-> Sep(calc.dec), tho |-> IF "tho_seq" \in DOMAIN e THEN e.tho_seq ELSE Sep(calc.tho)]
 Judge(ok, exp) == bad' = IF ok THEN bad ELSE IF Report(l, exp) THEN bad \cup {l} ELSE bad
 
 TInit == /\ calc = DefaultCalc /\ sess = <<>> /\ run = NoRun /\ today = 0 /\ last = [call |-> "none"]
